@@ -68,13 +68,22 @@ def bfs(root, nbrs, maxdepth, maxnodes):
 # families
 # ---------------------------------------------------------------------------
 
-def module_project(uses, nsub, prog_uses, ext_uses, thirdparty, nograph=None):
+def docline(name, text, nograph, entmeta):
+    """documentation of entity `name`: plain text, `graph: false`, or per-entity graph limits as leading metadata."""
+    if nograph == name:
+        return "!! graph: false"
+    if entmeta and entmeta[0] == name:
+        return "\n".join(f"!! {k}: {v}" for k, v in entmeta[1]) + f"\n!! {text}"
+    return f"!! {text}"
+
+
+def module_project(uses, nsub, prog_uses, ext_uses, thirdparty, nograph=None, entmeta=None):
     """uses: set of (i, j) = module i uses module j (i > j).  Returns (files, relation)."""
     files = {}
     rel = dict(uses=set(), anc=set(), nodes=set())
     for i in (1, 2, 3):
         L = [f"module m{i}"]
-        L.append(f"!! module {i}" if nograph != f"m{i}" else "!! graph: false")
+        L.append(docline(f"m{i}", f"module {i}", nograph, entmeta))
         for (a, b) in sorted(uses):
             if a == i:
                 L.append(f"use m{b}")
@@ -110,7 +119,7 @@ def gen_module_cases(tier):
                     yield ("modules", tuple(uses), nsub, prog_uses, ext_uses, third)
 
 
-def type_project(extends, comps, nograph=None):
+def type_project(extends, comps, nograph=None, entmeta=None):
     """extends: {i: parent j or 0}; comps: set of (i, j): type i has a component of type j."""
     L = ["module tm", "implicit none"]
     rel = dict(ext=set(), comp=set(), nodes=set())
@@ -118,7 +127,7 @@ def type_project(extends, comps, nograph=None):
     for i in order:
         ext = f", extends(t{extends[i]})" if extends.get(i) else ""
         L.append(f"type{ext} :: t{i}")
-        L.append(f"!! type {i}" if nograph != f"t{i}" else "!! graph: false")
+        L.append(docline(f"t{i}", f"type {i}", nograph, entmeta))
         L.append(f"integer :: x{i}")
         for (a, b) in sorted(comps):
             if a == i:
@@ -142,7 +151,7 @@ def gen_type_cases(tier):
                 yield ("types", tuple(sorted(ext.items())), comps)
 
 
-def proc_project(calls, with_prog, with_generic, nograph=None):
+def proc_project(calls, with_prog, with_generic, nograph=None, entmeta=None):
     """calls: set of (i, j): procedure i calls procedure j (self-loops allowed)."""
     L = ["module pm", "implicit none"]
     rel = dict(calls=set(), iface=set(), nodes=set())
@@ -155,7 +164,7 @@ def proc_project(calls, with_prog, with_generic, nograph=None):
         rec = "recursive " if (i, i) in calls else ""
         arg = "a" if i != 2 else "b"
         L.append(f"{rec}subroutine p{i}({arg})")
-        L.append(f"!! proc {i}" if nograph != f"p{i}" else "!! graph: false")
+        L.append(docline(f"p{i}", f"proc {i}", nograph, entmeta))
         L.append(f"{'integer' if i != 2 else 'real'} :: {arg}")
         for (a, b) in sorted(calls):
             if a == i:
@@ -182,6 +191,74 @@ def gen_proc_cases(tier):
         calls = tuple(c for k, c in enumerate(allc) if mask >> k & 1)
         yield ("procs", calls, True, False)
         yield ("procs", calls, True, True)
+
+
+def tbp_project(tname, decl, chain, caller):
+    """calls made through type-bound procedures: type `tname` (letter case as declared) with bindings clear => stack_clear and
+    size (function); the caller reaches them through a variable declared with `decl` (its own spelling of the type name),
+    directly or through a component of a second type."""
+    low = tname.lower()
+    L = ["module tb", "implicit none", f"type {tname}", "integer :: n", "contains", "procedure :: clear => stack_clear", "procedure :: depth_of => stack_size",
+         f"end type {tname}", "type holder", f"type({tname}) :: inner", "end type holder", "contains",
+         "subroutine stack_clear(self)", f"class({tname}) :: self", "self%n = 0", "end subroutine stack_clear",
+         "integer function stack_size(self)", f"class({tname}) :: self", "stack_size = self%n", "end function stack_size"]
+    var = {"type": f"type({decl}) :: s", "class": f"class({decl}) :: s", "holder": "type(holder) :: h"}
+    body = {1: ["call s%clear()", "k = s%depth_of()"], 2: ["call h%inner%clear()", "k = h%inner%depth_of()"]}[chain]
+    if caller == "subroutine":
+        if chain == 1:
+            L += ["subroutine reset(s)", var["class"] if decl.startswith("C:") else var["type"].replace("C:", ""), "integer :: k"] + body + ["end subroutine reset"]
+        else:
+            L += ["subroutine reset(h)", var["holder"], "integer :: k"] + body + ["end subroutine reset"]
+    L += ["end module tb"]
+    rel = dict(calls={("proc~reset", "proc~stack_clear"), ("proc~reset", "proc~stack_size")}, iface=set(), nodes={"proc~reset", "proc~stack_clear", "proc~stack_size"})
+    return {"src/tb.f90": "\n".join(L) + "\n"}, rel
+
+
+def gen_tbp_cases(tier):
+    for tname in ("stack_t", "Stack_t", "STACK_T"):
+        for decl in ("stack_t", "Stack_t", "STACK_T"):
+            for kw in ("type", "class"):
+                yield ("tbp", tname, decl, kw, 1)
+        yield ("tbp", tname, tname, "type", 2)
+
+
+def run_tbp_case(st: Stats, case):
+    _, tname, decl, kw, chain = case
+    files, rel = tbp_project(tname, decl, chain, "subroutine")
+    if kw == "class" and chain == 1:
+        files = {k: v.replace(f"subroutine reset(s)\ntype({decl}) :: s", f"subroutine reset(s)\nclass({decl}) :: s") for k, v in files.items()}
+    opts = dict(graph=True, display=["public", "private", "protected"], incl_src=True)
+    r = fordrun.build(files, opts, stage="docs")
+    st.evaluations += 1
+    stratum = "tbp/" + ("chain" if chain == 2 else kw)
+    inp = dict(case=list(case), files=files)
+    feats = dict(family="tbp", type_declared=tname, type_in_declaration=decl, keyword=kw, chain=chain, same_spelling=(tname == decl))
+    st.nontrivial.add(core.digest(case))
+    try:
+        if r.error is not None or r.stage_reached != "docs":
+            st.violation("ford-failed", stratum, feats, inp, (repr(r.error) + " " + r.log[-300:]).strip(), "graphs are built")
+            st.stratum(stratum, 1)
+            return
+        got = graphs_of(r, "procs")
+        st.states.add(core.digest(sorted((k, sorted(v[0]), sorted(set(v[1]))) for k, v in got.items())))
+        exp = expected_graphs("procs", rel, 10000, BIG)
+        bad = 0
+        for key, (wn, we) in exp.items():
+            if key not in got:
+                if len(wn) > 1:
+                    bad += 1
+                    st.violation("graph-missing", stratum, dict(feats, graph=key[1] or key[0]), inp, sorted(map(str, got)), list(key))
+                continue
+            gn, ge = got[key]
+            st.transitions += len(ge)
+            if gn != wn or set(ge) != set(we):
+                bad += 1
+                st.violation("wrong-node-set" if gn != wn else "wrong-edge-set", stratum,
+                             dict(feats, graph=key[1] or key[0], extra=",".join(sorted(gn - wn)), missing=",".join(sorted(wn - gn))), inp,
+                             dict(graph=list(key), nodes=sorted(gn), edges=sorted(set(ge))), dict(nodes=sorted(wn), edges=sorted(we)))
+        st.stratum(stratum, bad)
+    finally:
+        r.cleanup()
 
 
 LIMITS_QUICK = [(10000, BIG), (1, BIG), (10000, 2)]
@@ -243,23 +320,27 @@ def expected_graphs(family, rel, maxdepth, maxnodes):
     return exp
 
 
-def run_case(st: Stats, case, limits, nograph=None, ppar=False):
+def run_case(st: Stats, case, limits, nograph=None, ppar=False, entmeta=None):
     family = case[0]
+    if family == "tbp":
+        return run_tbp_case(st, case)
     if family == "modules":
-        files, rel = module_project(set(case[1]), case[2], case[3], case[4], case[5], nograph)
+        files, rel = module_project(set(case[1]), case[2], case[3], case[4], case[5], nograph, entmeta)
     elif family == "types":
-        files, rel = type_project(dict(case[1]), set(case[2]), nograph)
+        files, rel = type_project(dict(case[1]), set(case[2]), nograph, entmeta)
     else:
-        files, rel = proc_project(set(case[1]), case[2], case[3], nograph)
+        files, rel = proc_project(set(case[1]), case[2], case[3], nograph, entmeta)
     for (maxdepth, maxnodes) in limits:
         opts = dict(graph=True, graph_maxdepth=maxdepth, graph_maxnodes=maxnodes, show_proc_parent=ppar,
                     display=["public", "private", "protected"], incl_src=True)
         r = fordrun.build(files, opts, stage="docs")
         st.evaluations += 1
-        stratum = f"{family}/d{maxdepth if maxdepth < 100 else 'inf'}/n{maxnodes if maxnodes < 100 else 'inf'}" + ("/nograph" if nograph else "")
-        inp = dict(case=[list(x) if isinstance(x, tuple) else x for x in case], maxdepth=maxdepth, maxnodes=maxnodes, nograph=nograph, files=files)
-        feats = dict(family=family, maxdepth=maxdepth, maxnodes=maxnodes, nograph=nograph or "", show_proc_parent=ppar)
-        st.nontrivial.add(core.digest([case, maxdepth, maxnodes, nograph, ppar]))
+        stratum = f"{family}/d{maxdepth if maxdepth < 100 else 'inf'}/n{maxnodes if maxnodes < 100 else 'inf'}" + ("/nograph" if nograph else "") + ("/entity-limits" if entmeta else "")
+        inp = dict(case=[list(x) if isinstance(x, tuple) else x for x in case], maxdepth=maxdepth, maxnodes=maxnodes, nograph=nograph, files=files,
+                   entmeta=[entmeta[0], [list(kv) for kv in entmeta[1]]] if entmeta else None)
+        feats = dict(family=family, maxdepth=maxdepth, maxnodes=maxnodes, nograph=nograph or "", show_proc_parent=ppar,
+                     entity_limits=",".join(f"{k}={v}" for k, v in entmeta[1]) if entmeta else "")
+        st.nontrivial.add(core.digest([case, maxdepth, maxnodes, nograph, ppar, entmeta]))
         try:
             if r.error is not None or r.stage_reached != "docs":
                 st.violation("ford-failed", stratum, feats, inp, (repr(r.error) + " " + r.log[-300:]).strip(), "graphs are built")
@@ -288,6 +369,14 @@ def run_case(st: Stats, case, limits, nograph=None, ppar=False):
                 st.stratum(stratum, bad)
                 continue
             exp = expected_graphs(family, rel, maxdepth, maxnodes)
+            if entmeta:
+                # limits given in an entity's own documentation apply to that entity's graphs
+                md = dict(entmeta[1])
+                own = expected_graphs(family, rel, int(md.get("graph_maxdepth", maxdepth)), int(md.get("graph_maxnodes", maxnodes)))
+                gid = {"m": "module~", "t": "type~", "p": "proc~"}[entmeta[0][0]] + entmeta[0]
+                for key in exp:
+                    if key[0] == gid:
+                        exp[key] = own[key]
             for key, (wn, we) in exp.items():
                 if key[0].startswith("project:") and maxnodes < BIG:
                     continue  # node limits of project-wide graphs are a rendering matter
@@ -315,8 +404,8 @@ def run_case(st: Stats, case, limits, nograph=None, ppar=False):
 
 def work(chunk):
     st = Stats()
-    for (case, limits, nograph, ppar) in chunk:
-        run_case(st, case, limits, nograph, ppar)
+    for (case, limits, nograph, ppar, *more) in chunk:
+        run_case(st, case, limits, nograph, ppar, more[0] if more else None)
     return st
 
 
@@ -337,6 +426,19 @@ def gen_jobs(tier):
     for ng in ("p1", "p2", "p3"):
         for c in (("procs", ((1, 2), (2, 3), (3, 1)), True, False), ("procs", ((1, 1), (2, 1)), False, False)):
             jobs.append((c, [(10000, BIG)], ng, False))
+    # per-entity limits in the entity's documentation (narrower and wider than the project-wide value)
+    chain_m = ("modules", ((2, 1), (3, 2)), 2, (3,), (), False)
+    full_m = ("modules", ((2, 1), (3, 1), (3, 2)), 1, (1, 3), (2,), True)
+    chain_t = ("types", ((2, 1), (3, 2)), ((1, 3),))
+    chain_p = ("procs", ((1, 2), (2, 3)), True, False)
+    ring_p = ("procs", ((1, 2), (2, 3), (3, 1), (1, 3)), False, True)
+    for proj_limits in ((10000, BIG), (1, BIG), (10000, 2)):
+        for meta in ((("graph_maxdepth", 1),), (("graph_maxdepth", 2),), (("graph_maxnodes", 2),), (("graph_maxnodes", 3),), (("graph_maxdepth", 1), ("graph_maxnodes", 2))):
+            for ent, cases in (("m1", (chain_m, full_m)), ("m3", (chain_m, full_m)), ("t1", (chain_t,)), ("t3", (chain_t,)), ("p1", (chain_p, ring_p)), ("p3", (chain_p, ring_p))):
+                for c in cases:
+                    jobs.append((c, [proj_limits], None, False, (ent, meta)))
+    for c in gen_tbp_cases(tier):
+        jobs.append((c, [], None, False))
     return jobs
 
 
@@ -351,7 +453,9 @@ def replay(path):
         return tuple(tup(y) for y in x) if isinstance(x, list) else x
 
     st = Stats()
-    run_case(st, tup(i["case"]), [(i["maxdepth"], i["maxnodes"])], i.get("nograph"), rec["features"].get("show_proc_parent", False))
+    em = i.get("entmeta")
+    run_case(st, tup(i["case"]), [(i.get("maxdepth", 10000), i.get("maxnodes", BIG))], i.get("nograph"), rec["features"].get("show_proc_parent", False),
+             (em[0], tuple(tuple(kv) for kv in em[1])) if em else None)
     for f, t in i["files"].items():
         print("-----", f)
         print(t)
